@@ -43,7 +43,10 @@ def metric_value(spec, trial_id, epoch):
     tbl = spec.get("curve_table") or {}
     key = "%d:%d" % (trial_id, epoch)
     if key in tbl:
-        return float(tbl[key])
+        return float(tbl[key])   # "nan" allowed
+    # a diverged run: the job does not fail but reports NaN (spec["nan_den"] = n: one report in n)
+    if spec.get("nan_den") and (spec["curve_seed"] * 7 + trial_id * 131 + epoch * 31337) % spec["nan_den"] == 0:
+        return float("nan")
     return curve(spec["curve_seed"], trial_id, epoch, spec.get("flavour", "plain"))
 
 
